@@ -95,7 +95,7 @@ class Tally:
         self.transitions += r.generated
         self.profiles[name] = {"distinct_states": r.distinct, "states_generated": r.generated, "programs": len(r.records),
                                "wall_s": round(r.wall, 1), "coverage": {k: v[1] for k, v in r.coverage.items()},
-                               "status": dict(collections.Counter(x["st"] for x in r.records))}
+                               "status": dict(collections.Counter(x.get("st", "-") for x in r.records))}
 
     def add(self, judged):
         for (c, src, maps, classes, resps) in judged:
